@@ -540,6 +540,7 @@ type Outcome struct {
 	Snapshot     *reqSnapshot // request as given to ServeHTTP
 	Hang         bool         // ServeHTTP did not return within the watchdog
 	Direct       bool         // the handler was given the client's own ResponseWriter (pass-through / unknown handler)
+	cancelParent context.CancelFunc
 }
 
 // watchdog is three orders of magnitude above the normal latency of a case (DESIGN 2.1).
@@ -656,6 +657,10 @@ func runScenarioOpts(sc *Scenario, shared *sharedTranscoder, noFlusher bool) *Ou
 		body.chunk = sc.Client.ReadChunk
 	}
 	out.Body = body
+	// like a real server, hand in a context that can be (but is not yet) cancelled
+	parentCtx, cancelParent := context.WithCancel(req.Context())
+	out.cancelParent = cancelParent
+	req = req.WithContext(parentCtx)
 	var handler http.Handler
 	if shared != nil {
 		handler = shared.tr
